@@ -430,6 +430,15 @@ func (*c18) Shrink(ci any, fails func(c any) bool) any {
 		}
 		return y
 	}
+	// fast path: one OCI listing with one version argument reproduces most OCI violations
+	for _, q := range c.OCI {
+		for _, v := range q.Versions {
+			cand := c18Case{File: c18File{Mode: "empty"}, OCI: []c18OCI{{Pages: q.Pages, Versions: []string{v}}}}
+			if fails(cand) {
+				return cand
+			}
+		}
+	}
 	cur := clone(c)
 	if !fails(cur) {
 		return c
